@@ -7,7 +7,8 @@ from cpu_common import *
 def main(tier):
     ck = cpu_check('C03', tier)
     ck.stubs_used.append('memory.Mapper -> flat 64 KiB array with access log (stubs/flatmapper)')
-    jobs = [('cpu', 'VerifInstr', {'op': o, 'cb': 0}) for o in BASE_OPS] + [('cpu', 'VerifInstr', {'op': o, 'cb': 1}) for o in range(256)]
+    jobs = [('cpu', 'VerifInstr', {'op': o, 'cb': 0}) for o in BASE_OPS] + [('cpu', 'VerifInstr', {'op': o, 'cb': 1}) for o in range(256)] + \
+        [('cpu', 'VerifInstrAfter', {'op': o, 'cb': 0}) for o in BASE_OPS] + [('cpu', 'VerifInstrAfter', {'op': o, 'cb': 1}) for o in range(256)]
     ck.bounds = {'configurations': 'all 501 opcodes (non-accessing ones must log no data access)',
                  'values': 'width-complete', 'outside': 'the machine cycle of operand-byte fetches (only their order and that they are reads is asserted)'}
     ck.run(jobs, only=r'^(access-|fetch-|opcode-fetch)', skip_implicit=True)
